@@ -188,7 +188,8 @@ impl<R: DynamicChannelRegion> RegionHandler for DynamicChannelPlan<R> {
         rng: &mut RNG,
         datarate: DR,
         frame: &Frame,
-    ) -> TxChannel {
+    ) -> Option<TxChannel> {
+        let dr_params = R::datarates().get(datarate as usize)?.clone()?;
         match frame {
             Frame::Join => {
                 // There are at most 3 join channels in dynamic regions,
@@ -200,25 +201,31 @@ impl<R: DynamicChannelRegion> RegionHandler for DynamicChannelPlan<R> {
 
                 // SAFETY: Join channels SHALL be always present
                 let channel = self.channels[index as usize].unwrap();
-                TxChannel {
-                    datarate: R::datarates()[datarate as usize].clone().unwrap(),
+                Some(TxChannel {
+                    datarate: dr_params,
                     dr: datarate,
                     frequency: channel.ul_frequency(),
                     rx1_frequency: channel.rx1_frequency(),
-                }
+                })
             }
             Frame::Data => {
+                // Sampling only ends on a channel that is both defined and enabled
+                if !(0..self.channels.len())
+                    .any(|i| self.channels[i].is_some() && self.channel_mask.is_enabled(i).unwrap_or(false))
+                {
+                    return None;
+                }
                 let mut channel = self.get_random_in_range(rng);
                 loop {
                     if self.channel_mask.is_enabled(channel).unwrap()
                         && let Some(ch) = self.channels[channel]
                     {
-                        return TxChannel {
-                            datarate: R::datarates()[datarate as usize].clone().unwrap(),
+                        return Some(TxChannel {
+                            datarate: dr_params,
                             dr: datarate,
                             frequency: ch.ul_frequency(),
                             rx1_frequency: ch.rx1_frequency(),
-                        };
+                        });
                     }
                     channel = self.get_random_in_range(rng)
                 }
